@@ -72,6 +72,7 @@ def behav? : Sexp → Option Behav
   | .list [.atom "ret", n, k] => do some (.ret (← n.nat?) (← rkind? k))
   | .list [.atom "raise", n] => n.nat?.map (Behav.raise · .exception)
   | .list [.atom "raise", n, k] => do some (.raise (← n.nat?) (← ekind? k))
+  | .list [.atom "sync", n] => n.nat?.map Behav.syncCall
   | _ => none
 
 def kw? : Sexp → Option (List (Nat × Nat))
@@ -129,6 +130,7 @@ def exc? : List Sexp → Exc
   | [.atom "typeError"] => .typeError
   | [.atom "attributeError"] => .attributeError
   | [.atom "valueError"] => .valueError
+  | [.atom "runtimeError"] => .runtimeError
   | _ => .other
 
 def out? : Sexp → Option Out
